@@ -279,6 +279,7 @@ PROPS["C04"] = {
         R("request-split", "pkg/base", "pkg/base", ["ZzC04Request"], flags={"concoff": True}, quick_params={"MLO": 7, "MHI": 7, "HL": 2, "BL": 1}, thorough_params={"HL": 2, "BL": 2}),
         R("request-bytewise", "pkg/base", "pkg/base", ["ZzC04Request"], flags={"concoff": True}, params={"SPLIT": 0, "BUFSZ": 4096}, quick_params={"MLO": 1, "MHI": 1, "HL": 1, "BL": 1}, thorough_params={"HL": 2, "BL": 2}),
         R("response-split", "pkg/base", "pkg/base", ["ZzC04Response"], flags={"concoff": True}, quick_params={"HL": 1, "BL": 1}, thorough_params={"HL": 2, "BL": 2}),
+        R("response-then-longer-element", "pkg/base", "pkg/base", ["ZzC04Response"], flags={"concoff": True}, params={"LONGFOLLOW": 1, "BUFSZ": 4096}, quick_params={"HL": 2, "BL": 2}, thorough_params={"HL": 2, "BL": 3}),
         R("response-bytewise", "pkg/base", "pkg/base", ["ZzC04Response"], flags={"concoff": True}, params={"SPLIT": 0, "BUFSZ": 4096}, quick_params={"HL": 2, "BL": 1}, thorough_params={"HL": 2, "BL": 2}),
         R("header-limit", "pkg/base", "pkg/base", ["ZzC04HeaderLimit"], flags={"concoff": True, "unwind": 2000}),
         R("body-limit", "pkg/base", "pkg/base", ["ZzC04BodyLimit"], flags={"concoff": True, "maxalloc": 140000}),
